@@ -147,6 +147,7 @@ def build(tier, seed):
     cases.append({'k': 'reject'})
     for g in sorted(DECIMAL_GRIDS):
         cases.append({'k': 'grid', 'grid': g})
+    cases.append({'k': 'gridhist'})
     for w in words(SIGMA, 1, L):
         cases.append({'k': 'word', 'w': list(w)})
     return {
@@ -1177,6 +1178,77 @@ def run_grid(r, case):
                        rtol=1e-9, atol=1e-6, what='column = node number: node index + fraction of the interval')
 
 
+def run_grid_history(r, case):
+    """(i) The caller's query and node arrays refilled / rescaled IN PLACE between two calls (same objects, other content): the answer
+    is the one for the content.  (ii) Node arrays of other number types (integer nodes with negative fractional queries, float32 nodes
+    with float64 queries next to them): 'the greatest node not exceeding the query' is decided on the VALUES."""
+    r.nontrivial += 1
+    xf = np.array([0.0, 0.5, 3.0, 3.1, 7.0])
+    f = np.array([[1.0, -2.0], [0.0, 4.0], [4.0, -1.0], [-1.0, 0.0], [2.0, 2.0]])
+    q1 = [0.0, 0.25, 2.0, 3.05, 6.0, 7.0]
+    q2 = [0.5, 1.75, 3.0, 3.1, 0.1, 5.0]
+
+    def lin(qs, nodes, tab):
+        return np.array([[float(np.interp(q, nodes, tab[:, c])) for c in range(tab.shape[1])] for q in qs])
+
+    def left(qs, nodes, col):
+        return [float(col[max(i for i in range(len(nodes)) if nodes[i] <= q)]) for q in qs]
+    x = np.array(q1)
+    base = {'family': 'arrays edited in place between calls'}
+    for step, (edit, qs_now, nodes_now) in enumerate((
+            (None, q1, xf.copy()),
+            (lambda: x.__setitem__(Ellipsis, np.array(q2)), q2, xf.copy()),
+            (lambda: xf.__imul__(2.0), q2, xf * 2.0),
+            (lambda: x.__setitem__(Ellipsis, np.array(q1)), q1, xf * 2.0))):
+        if edit is not None:
+            edit()
+        sub = dict(base, step=step, queries=list(qs_now), nodes=[float(v) for v in nodes_now])
+        r.states += 1
+        ok, out = r.call('interp2d.in-place-history', sub, fns.interp2d, x, xf, f)
+        if ok:
+            r.cls('query-array-refilled-in-place')
+            r.expect_close('interp2d.in-place-history', sub, out, lin(qs_now, nodes_now, f), rtol=1e-9, atol=1e-12,
+                           what='same array objects, content changed in place since the previous call')
+        ok, out = r.call('interp_left.in-place-history', sub, fns.interp_left, x, xf, f[:, 0].copy())
+        if ok:
+            r.expect_close('interp_left.in-place-history', sub, out, left(qs_now, nodes_now, f[:, 0]), rtol=0.0, atol=0.0,
+                           what='same array objects, content changed in place since the previous call')
+    # (ii) number types of the nodes
+    inodes = np.array([-3, -1, 0, 2, 5], dtype=np.int64)
+    icol = np.array([10.0, 11.0, 12.0, 13.0, 14.0])
+    iq = [-3.0, -2.5, -1.0, -0.5, -0.0001, 0.0, 0.5, 1.999, 2.0, 4.5, 5.0, 6.5]
+    for form, arg in (('ndarray', np.array(iq)), ('list', list(iq))):
+        sub = {'family': 'integer nodes, fractional queries', 'nodes': inodes.tolist(), 'x0': form}
+        r.states += 1
+        ok, out = r.call('interp_left.node-types', sub, fns.interp_left, arg, inodes.copy(), icol.copy())
+        if ok:
+            r.cls('integer-nodes-negative-fractional-query')
+            r.expect_close('interp_left.node-types', sub, out, left(iq, inodes.tolist(), icol), rtol=0.0, atol=0.0)
+    for q in iq:
+        sub = {'family': 'integer nodes, fractional queries', 'nodes': inodes.tolist(), 'x0': q}
+        ok, out = r.call('interp_left.node-types', sub, fns.interp_left, q, inodes.copy(), icol.copy())
+        if ok:
+            r.expect_close('interp_left.node-types', sub, out, left([q], inodes.tolist(), icol)[0], rtol=0.0, atol=0.0)
+    f32 = np.array([0.1 * k for k in range(12)], dtype=np.float32)
+    f32v = [float(v) for v in f32]                  # the node VALUES (exactly representable in float64)
+    col32 = np.arange(12, dtype=float)
+    fq = []
+    for k in range(12):
+        fq += [f32v[k], 0.1 * k] + ([float(np.nextafter(f32v[k], -np.inf))] if k else [])
+    fq = sorted(set(q for q in fq if q >= f32v[0]))
+    sub = {'family': 'float32 nodes, float64 queries next to them', 'x0': 'ndarray'}
+    r.states += 1
+    ok, out = r.call('interp_left.node-types', sub, fns.interp_left, np.array(fq), f32.copy(), col32.copy())
+    if ok:
+        r.cls('float32-nodes-float64-queries')
+        r.expect_close('interp_left.node-types', sub, out, left(fq, f32v, col32), rtol=0.0, atol=0.0)
+    for q in fq:
+        sub = {'family': 'float32 nodes, float64 queries next to them', 'x0': q}
+        ok, out = r.call('interp_left.node-types', sub, fns.interp_left, q, f32.copy(), col32.copy())
+        if ok:
+            r.expect_close('interp_left.node-types', sub, out, left([q], f32v, col32)[0], rtol=0.0, atol=0.0)
+
+
 def run_case(case):
     r = Res()
     k = case['k']
@@ -1188,6 +1260,8 @@ def run_case(case):
         run_spectra(r, case)
     elif k == 'grid':
         run_grid(r, case)
+    elif k == 'gridhist':
+        run_grid_history(r, case)
     else:
         run_reject(r, case)
     return r
@@ -1227,6 +1301,8 @@ def snippet(case, v):
                        "None if sub['col'] is None else f[:, sub['col']]))\n"
                        "print([np.interp(q, xf, f[:, 0]) for q in x], [int(np.sum(xf <= q)) - 1 for q in x])   # column 0 / node index\n"
                        % (qa, sub.get('arrangement', sub.get('x'))))
+    if k == 'gridhist':
+        return head + "# see run_grid_history in mcheck/props/c20.py\n"
     if k == 'grid':
         return head + ("# node set DECIMAL_GRIDS[%r] of mcheck/props/c20.py; column = node number; query sub['query'] / all nodes, "
                        "their neighbouring floats and midpoints\n" % (case['grid'],))
